@@ -710,7 +710,7 @@ pub fn run(ctx: &mut Ctx, hash: bool) {
     for depth in [129usize, 200, 300, 600] {
         for variant in [0usize, 1, 4, 7] {
             idx += 1;
-            if !ctx.mine(idx) {
+            if !ctx.mine(idx) || !big_stacks_available() {
                 continue;
             }
             ctx.report.eval();
